@@ -3215,6 +3215,39 @@ func scanNTTLast(c *core.Ctx) []ob {
 		n++
 		var last ast.Node = loop.Body
 		for _, st := range loop.Body.List {
+			// the same chain spelled as a switch: the clause of the last layer is the default one, else the one
+			// that tests t against 1, else the last clause
+			if sw, ok := st.(*ast.SwitchStmt); ok {
+				onT := sw.Tag != nil && exprString(sw.Tag) == "t"
+				var def, one, lastCl *ast.CaseClause
+				for _, cc := range sw.Body.List {
+					cl := cc.(*ast.CaseClause)
+					lastCl = cl
+					if len(cl.List) == 0 {
+						def = cl
+					}
+					for _, e := range cl.List {
+						es := strings.ReplaceAll(exprString(e), " ", "")
+						if es == "t==1" || es == "1==t" || (onT && es == "1") {
+							one = cl
+						}
+						if strings.Contains(es, "t") {
+							onT = true
+						}
+					}
+				}
+				if onT && lastCl != nil {
+					switch {
+					case one != nil:
+						last = &ast.BlockStmt{List: one.Body, Lbrace: one.Pos(), Rbrace: one.End()}
+					case def != nil:
+						last = &ast.BlockStmt{List: def.Body, Lbrace: def.Pos(), Rbrace: def.End()}
+					default:
+						last = &ast.BlockStmt{List: lastCl.Body, Lbrace: lastCl.Pos(), Rbrace: lastCl.End()}
+					}
+				}
+				continue
+			}
 			is, ok := st.(*ast.IfStmt)
 			if !ok {
 				continue
@@ -3828,6 +3861,7 @@ func init() {
 func scanInitIdx(c *core.Ctx) []ob {
 	var out []ob
 	n := 0
+	initOrd := map[string]int{}
 	c.FuncDecls(func(pk *packages.Package, file *ast.File, fd *ast.FuncDecl) {
 		if fd.Body == nil || fileIsTestSupport(c.Program, fd.Pos()) || inExamples(pk) {
 			return
@@ -3883,7 +3917,8 @@ func scanInitIdx(c *core.Ctx) []ob {
 					return true
 				}
 				n++
-				key := fmt.Sprintf("INITIDX:%s#%s@%s", fkey, iv.Name(), c.Rel(is.Pos()))
+				initOrd[fkey+"#"+iv.Name()]++
+				key := fmt.Sprintf("INITIDX:%s#%s@%d", fkey, iv.Name(), initOrd[fkey+"#"+iv.Name()])
 				// enclosing conditions between the loop body and this if
 				var under ast.Node
 				for p := pm[ast.Node(is)]; p != nil && p != ast.Node(body); p = pm[p] {
